@@ -74,7 +74,8 @@ func runC19(c *Ctx) {
 	c.Rule("C19.I", "chain of custody of (backend ID, request ID) and of the stored bytes", 23)
 	c.Rule("C19.K", "key agreement between write and read paths; ordered blob parts; stored entities stay loadable", 13)
 	c.Rule("C19.C", "completion flag", 3)
-	c.Rule("C19.S", "cache and datastore keys encode (backend ID, request ID) injectively, same roles on both sides; the caching store delegates with its own parameters, context included (= C17.S)", 5)
+	c.Rule("C19.S", "cache and datastore keys encode (backend ID, request ID) injectively, same roles on both sides; the caching store delegates with its own parameters, context included (= C17.S); what it caches is the value it writes through", 7)
+	ruleCacheHoldsWhatIsStored(c, p, "C19.S")
 	c17Sibling(c, p, "C19.S") // includes the key rules; the caching store hands its own parameters (context included) to the store it wraps
 	c.Rule("C19.R", "GET response cache: one injective key of (user, URL) for lookup and store", 6)
 	ruleAppResponseCacheKey(c, p, "C19.R")
@@ -874,5 +875,39 @@ func ruleBlobParts(c *Ctx, p *Prog, rule string) {
 			})
 		}
 		c.Check(rule, "blob:ordered-read", p, f.Pos(), okR && okKeys && okCat, "parts are fetched with one ordered GetMulti over keys built from blob.Parts in order and concatenated in that order, without goroutines", "blob.read does not fetch the parts with a single ordered GetMulti over blob.Parts and append them in that order (e.g. concurrent Gets appended in completion order): bodies with more than one continuation part read back permuted")
+	}
+}
+
+// ruleCacheHoldsWhatIsStored: the caching store puts into memcache the very request/response it
+// hands to the backing store. ReadRequest/ReadResponse trust a cache hit, so a slimmed-down or
+// otherwise derived copy (metadata only for completed requests, say) is what a later fetch of
+// that ID returns — an agent that fetches after the completion gets an empty body.
+func ruleCacheHoldsWhatIsStored(c *Ctx, p *Prog, rule string) {
+	for _, m := range []string{"WriteRequest", "WriteResponse"} {
+		f := c.need(p, rule, "app/cache.(*cachingStore)."+m)
+		if f == nil {
+			continue
+		}
+		prm := ParamAt(f, 2)
+		bad := ""
+		n := 0
+		EachInstr(f, func(i ssa.Instruction) {
+			al, ok := i.(*ssa.Alloc)
+			if !ok || NamedType(al.Type()) != "google.golang.org/appengine/v2/memcache.Item" {
+				return
+			}
+			v, has := LiteralField(al, "Object")
+			if !has {
+				return
+			}
+			n++
+			if mi, isMI := v.(*ssa.MakeInterface); isMI {
+				v = mi.X
+			}
+			if prm == nil || !SameValue(v, prm) {
+				bad = PathOf(v) + " at " + p.Pos(al.Pos())
+			}
+		})
+		c.Check(rule, "cachingStore."+m+":caches-the-value-it-stores", p, f.Pos(), bad == "" && n >= 1, fmt.Sprintf("%d memcache item(s): the cached object is the method's own parameter", n), "cachingStore."+m+" caches "+bad+" instead of the value it writes through: reads prefer the cache, so a later read of that ID returns the derived copy (without the contents, say) — the bytes an agent or client gets are not the ones that were stored")
 	}
 }
